@@ -334,6 +334,7 @@ def finish(mod, tier: str, seed: int, merged: dict, wall: float, workers_failed:
             cov["exhaustive"] = bool(merged["counters"].get(mod.EXHAUSTIVE_KEY, 0)) and not merged["counters"].get(
                 mod.EXHAUSTIVE_KEY + "_incomplete", 0
             )
+        cov.update(getattr(mod, "COVERAGE_EXTRA", {}))
         ev = dict(
             property_id=prop,
             tier=tier,
